@@ -464,10 +464,11 @@ class SymmetryElement(object):
         :param other: SymmetryElement instance
         :return: True/False
         """
-        m = (self.matrix == other.matrix)
-        t1 = Array([v % 1 for v in self.trans])
-        t2 = Array([v % 1 for v in other.trans])
-        t = (t1 == t2)
+        # Compare element-wise: the rows may be tuples in one matrix and lists in the other.
+        m = all(a == b for row1, row2 in zip(self.matrix.values, other.matrix.values) for a, b in zip(row1, row2))
+        # The difference has to be a whole lattice translation. A tolerance is needed, because
+        # values like 2/3 and -1/3 do not have the same remainder in floating point arithmetic.
+        t = all(abs((a - b + 0.5) % 1 - 0.5) < 1e-6 for a, b in zip(self.trans, other.trans))
         return m and t
 
     def __sub__(self, other):
